@@ -90,6 +90,13 @@ def Forward (s : Step) : Prop :=
     | some b => fwd a.rec_ b.rec_ = true
     | none => a.rec_.state = .tombstone
 
+/-- the stored records move only forward as well: what is stored decides what a new leader serves -/
+def StoredForward (s : Step) : Prop :=
+  ∀ (id : Nat) (a : DRec), get s.pre.stored id = some a →
+    match get s.post.stored id with
+    | some b => fwd a.rec_ b.rec_ = true
+    | none => a.rec_.state = .tombstone
+
 /-- heartbeats and re-registrations of a tombstone store are refused and change nothing -/
 def TombstoneRefused (s : Step) : Prop :=
   ∀ (id : Nat) (a : SRec), targetOf s.kind = some id → get s.pre.served id = some a → a.rec_.state = .tombstone →
@@ -124,6 +131,7 @@ def FailedUnchanged (s : Step) : Prop :=
 structure StepOk (s : Step) : Prop where
   completes : s.crashed = false
   forward   : Forward s
+  storedFwd : StoredForward s
   refused   : TombstoneRefused s
   bury      : BuryOnlyEmpty s
   addresses : AddressesUnique s.post
@@ -141,6 +149,12 @@ def ids (s : Step) : List Nat :=
 def checkForward (s : Step) : Bool :=
   allGet s.pre.served (fun id a =>
     match get s.post.served id with
+    | some b => fwd a.rec_ b.rec_
+    | none => a.rec_.state == .tombstone)
+
+def checkStoredForward (s : Step) : Bool :=
+  allGet s.pre.stored (fun id a =>
+    match get s.post.stored id with
     | some b => fwd a.rec_ b.rec_
     | none => a.rec_.state == .tombstone)
 
@@ -185,12 +199,13 @@ def checkFailed (s : Step) : Bool :=
   (s.ok || s.kind == .sweep || (ids s).all (fun id => sameServed (get s.pre.served id) (get s.post.served id)))
 
 def checkStep (s : Step) : Bool :=
-  !s.crashed && checkForward s && checkRefused s && checkBury s && checkAddresses s.post && checkDurable s && checkFailed s
+  !s.crashed && checkForward s && checkStoredForward s && checkRefused s && checkBury s && checkAddresses s.post && checkDurable s && checkFailed s
 
 /-- names of the violated conjuncts (for the monitor's `sig=`) -/
 def violated (s : Step) : List String :=
   (if s.crashed then ["operation-panicked"] else []) ++
   (if checkForward s then [] else ["state-moved-backwards"]) ++
+  (if checkStoredForward s then [] else ["stored-state-moved-backwards"]) ++
   (if checkRefused s then [] else ["tombstone-not-refused"]) ++
   (if checkBury s then [] else ["buried-with-regions"]) ++
   (if checkAddresses s.post then [] else ["live-address-shared"]) ++
@@ -234,6 +249,21 @@ theorem checkForward_iff (s : Step) : checkForward s = true ↔ Forward s := by
   · intro h id a ha
     have := h id a ha
     cases hb : get s.post.served id with
+    | none => simpa [hb] using this
+    | some b => simpa [hb] using this
+
+theorem checkStoredForward_iff (s : Step) : checkStoredForward s = true ↔ StoredForward s := by
+  unfold checkStoredForward StoredForward
+  rw [allGet_iff]
+  constructor
+  · intro h id a ha
+    have := h id a ha
+    cases hb : get s.post.stored id with
+    | none => simpa [hb] using this
+    | some b => simpa [hb] using this
+  · intro h id a ha
+    have := h id a ha
+    cases hb : get s.post.stored id with
     | none => simpa [hb] using this
     | some b => simpa [hb] using this
 
@@ -375,11 +405,11 @@ theorem checkFailed_iff (s : Step) : checkFailed s = true ↔ FailedUnchanged s 
 
 theorem checkStep_iff (s : Step) : checkStep s = true ↔ StepOk s := by
   unfold checkStep
-  simp only [Bool.and_eq_true, checkForward_iff, checkRefused_iff, checkBury_iff, checkAddresses_iff,
+  simp only [Bool.and_eq_true, checkForward_iff, checkStoredForward_iff, checkRefused_iff, checkBury_iff, checkAddresses_iff,
     checkDurable_iff, checkFailed_iff, Bool.not_eq_true']
   constructor
-  · rintro ⟨⟨⟨⟨⟨⟨h0, h1⟩, h2⟩, h3⟩, h4⟩, h5⟩, h6⟩; exact ⟨h0, h1, h2, h3, h4, h5, h6⟩
-  · rintro ⟨h0, h1, h2, h3, h4, h5, h6⟩; exact ⟨⟨⟨⟨⟨⟨h0, h1⟩, h2⟩, h3⟩, h4⟩, h5⟩, h6⟩
+  · rintro ⟨⟨⟨⟨⟨⟨⟨h0, h1⟩, h1'⟩, h2⟩, h3⟩, h4⟩, h5⟩, h6⟩; exact ⟨h0, h1, h1', h2, h3, h4, h5, h6⟩
+  · rintro ⟨h0, h1, h1', h2, h3, h4, h5, h6⟩; exact ⟨⟨⟨⟨⟨⟨⟨h0, h1⟩, h1'⟩, h2⟩, h3⟩, h4⟩, h5⟩, h6⟩
 
 /-- the checker over a whole history -/
 def check (steps : List Step) : Bool := steps.all checkStep
